@@ -222,7 +222,15 @@ func seg(r *rand.Rand) string {
 	}
 }
 
+// odd spellings the property's quantifier names: several leading slashes, empty and dot segments, dot-dot right
+// after the root, a trailing slash
+var oddSpellings = []string{"//..", "//../target-evil", "//../x", "///", "/./..", "/./../x", "//", "/.", "./..", "./../x", "a//b", "a/./b",
+	"/a//b", "//a", "///a/b", "a/", "/a/", "a/b/", ".//a", "/..", "/../x", "//../..", "/.//..", "a/..//..", "./", "//.//..//"}
+
 func mkPath(r *rand.Rand, maxLen int, allowAbs bool) string {
+	if r.Intn(9) == 0 {
+		return oddSpellings[r.Intn(len(oddSpellings))]
+	}
 	n := 1 + r.Intn(maxLen)
 	p := make([]string, n)
 	for i := range p {
@@ -230,7 +238,7 @@ func mkPath(r *rand.Rand, maxLen int, allowAbs bool) string {
 	}
 	s := strings.Join(p, "/")
 	if allowAbs && r.Intn(5) == 0 {
-		s = "/" + s
+		s = strings.Repeat("/", 1+r.Intn(3)/2) + s
 	}
 	if r.Intn(12) == 0 {
 		s += "/"
@@ -297,8 +305,16 @@ func randCase(r *rand.Rand) []ent {
 	}
 	// symlink-then-write-through
 	if mode >= 80 && len(es) >= 2 {
-		es[0] = ent{typ: 'l', name: plain[r.Intn(3)], cid: 1, link: []string{"/", ".", "b", "/b/c", "../target-evil", "b/.."}[r.Intn(6)]}
+		links := []string{"/", ".", "b", "/b/c", "../target-evil", "b/..", "//..", "//../target-evil", "/./..", "//", "./..", "///..", "b//..", "/b/../.."}
+		nm := plain[r.Intn(3)]
+		if r.Intn(3) == 0 {
+			nm = plain[r.Intn(3)] + "/" + nm
+		}
+		es[0] = ent{typ: 'l', name: nm, cid: 1, link: links[r.Intn(len(links))]}
 		es[1].name = es[0].name + "/" + simplePath(r, 2)
+		if r.Intn(2) == 0 && len(es) >= 3 { // also a link created through the link
+			es[2] = ent{typ: 'l', name: es[0].name + "/" + plain[r.Intn(3)], cid: 3, link: simplePath(r, 1)}
+		}
 	}
 	// drop what archive/tar refuses to write (e.g. an empty name)
 	var ok []ent
